@@ -3,6 +3,7 @@ import RTA.Lemmas.TimerSound
 import RTA.Lemmas.TimerSoundExample
 import RTA.Lemmas.ChainSound
 import RTA.Lemmas.ExecRefine
+import RTA.Lemmas.ExecRefineChain
 import RTA.Spec.Ros2Exec
 /-! # C04 — the ECRTS'19 ROS 2 analyses are safe under reservation supply
 
@@ -21,8 +22,8 @@ The executor itself is also specified as a labelled transition system
 (`RTA/Spec/Ros2Exec.lean`); `executor_runs_are_timer_legal` (and `C05.executor_runs_are_legal`)
 prove that EVERY run of it (without chains) satisfies the schedule-level Specs, so the timer and
 polling-point theorems hold for the transition system itself (`timer_safe_lts`,
-`polling_point_safe_lts`).  For chains the schedule-level Spec is checked on every run by
-executing the model (`vlib/ros_sim.py: check_timer_legal`), not proved.
+`polling_point_safe_lts`), and `executor_runs_are_chain_legal` does the same for runs with a
+linear chain (`chain_safe_lts`).
 * the **processing-chain** analysis (`chain_safe`): every callback instance is attributed the
   arrival time of its chain instance; the analysis is the polling-point analysis of the last
   callback with the chain prefix and the other chains as interference (scalar WCETs, one
@@ -245,6 +246,46 @@ theorem polling_point_safe_lts (cbs : List Exec.Cb) (sigma : ℕ → Bool) (rels
   pollingPoint_sound _ sigma i
     (RrSoundLemmas.toTimer (Exec.run_polling_legal cbs sigma rels H hidx hfin hcb) i)
     sup hs hsbf a C hwf hex hC interf hwfi hexi hN hcost hint limit R hR
+
+/-- refinement for chains: every run of the executor transition system WITH a linear chain
+`ch = [c₀, …, c_k]` (only `c₀` released externally) satisfies the Spec of `chain_safe` for the
+last callback, every callback instance of the chain carrying the arrival time of its source
+event (`Exec.toSysC`) -/
+theorem executor_runs_are_chain_legal (cbs : List Exec.Cb) (ch : List ℕ) (sigma : ℕ → Bool)
+    (rels : ℕ → List ℕ) (H l : ℕ)
+    (hch : ch.Nodup) (hne : 2 ≤ ch.length) (hlast : ch.getLast? = some l)
+    (hmem : ∀ i ∈ ch, i < cbs.length ∧ (cbs.getD i default).isTimer = false)
+    (hidx : ∀ t, ∀ i ∈ rels t, i < cbs.length)
+    (hext : ∀ t, ∀ i ∈ rels t, i ∉ ch.tail)
+    (hfin : ∀ t, H ≤ t → rels t = [])
+    (hcost : ∀ c ∈ cbs, 1 ≤ c.cost) :
+    SupplyTimerLegal (Exec.toSysC cbs ch sigma rels H) sigma l (fun k => k ≠ l) :=
+  Exec.run_chain_legal cbs ch sigma rels H l hch hne hlast hmem hidx hext hfin hcost
+
+/-- C04, processing chain, over the transition system itself: in every run, the last callback
+of every chain instance has received its full service within `R` of the source event -/
+theorem chain_safe_lts (cbs : List Exec.Cb) (ch : List ℕ) (sigma : ℕ → Bool)
+    (rels : ℕ → List ℕ) (H l : ℕ)
+    (hch : ch.Nodup) (hne : 2 ≤ ch.length) (hlast : ch.getLast? = some l)
+    (hmem : ∀ i ∈ ch, i < cbs.length ∧ (cbs.getD i default).isTimer = false)
+    (hidx : ∀ t, ∀ i ∈ rels t, i < cbs.length)
+    (hext : ∀ t, ∀ i ∈ rels t, i ∉ ch.tail)
+    (hfin : ∀ t, H ≤ t → rels t = [])
+    (hcb : ∀ c ∈ cbs, 1 ≤ c.cost)
+    (sup : Supply) (hs : sup.WF) (hsbf : ∀ t d, sup.sbf d ≤ service sigma t d)
+    (a : Arr) (C P : ℕ) (hwf : a.WF) (hex : a.Exact) (hC : 1 ≤ C) (hP : 1 ≤ P)
+    (others : RB) (hwfo : others.ArrWF) (hexo : others.Exact)
+    (hN : ∀ t d, countOf (Exec.toSysC cbs ch sigma rels H) l t (t + d) ≤ a.N d)
+    (hcost : ∀ k < (Exec.toSysC cbs ch sigma rels H).n, (Exec.toSysC cbs ch sigma rels H).task k = l →
+      (Exec.toSysC cbs ch sigma rels H).cost k ≤ C)
+    (hint : ∀ t d, workOf (Exec.toSysC cbs ch sigma rels H) (fun k => k ≠ l) t (t + d) ≤
+      (RB.rbf a (.scalar P)).need d + others.need d)
+    (limit R : ℕ)
+    (hR : rosChain sup (.rbf a (.scalar C)) (.rbf a (.scalar P)) (.rbf a (.scalar (C + P))) others limit = .ok R) :
+    ∀ j, j < (Exec.toSysC cbs ch sigma rels H).n → (Exec.toSysC cbs ch sigma rels H).task j = l →
+      MeetsBound (Exec.toSysC cbs ch sigma rels H) j R :=
+  chain_sound _ sigma l (Exec.run_chain_legal cbs ch sigma rels H l hch hne hlast hmem hidx hext hfin hcb)
+    sup hs hsbf a C P hwf hex hC hP others hwfo hexo hN hcost hint limit R hR
 
 /-- response times observed in a run of the executor model: every completed instance of
 callback `i` finished within `R` of its release -/
